@@ -37,7 +37,7 @@ fn srv_request(rng: &mut Rng, kind: &str) -> Request<'static> {
 fn gen_outcome(rng: &mut Rng, req: &Request<'_>) -> Svc {
     match rng.below(6) {
         0 => Svc::Decline,
-        1 => Svc::Exception(tokio_modbus::ExceptionCode::new(rng.exc_code())),
+        1 => Svc::Exception(crate::wire::ex_from_spec(rng.exc_code())),
         2 => loop {
             // services may answer with anything that fits
             let r = gen_response(rng, None);
@@ -170,7 +170,7 @@ pub fn gen_c07(out: &mut Out, rng: &mut Rng, thorough: bool) {
             data.extend(frame(kind, rng.u16(), unit, &spec::request_bytes(&Request::ReadCoils(a, 3)).unwrap()));
             let svc = [
                 Svc::Reply(Response::ReadHoldingRegisters(rng.words(2))),
-                Svc::Exception(tokio_modbus::ExceptionCode::new(rng.exc_code())),
+                Svc::Exception(crate::wire::ex_from_spec(rng.exc_code())),
                 Svc::Reply(Response::ReadCoils(rng.bits(8))),
             ];
             monitor_line(out, &format!("srv {kind} svc={} r=d{}", svc_tok(&svc), hex_raw(&data)));
@@ -190,7 +190,7 @@ pub fn gen_c07(out: &mut Out, rng: &mut Rng, thorough: bool) {
                 for outcome in 0..3 {
                     let first = match outcome {
                         0 => Svc::Reply(answer_for(rng, &req)),
-                        1 => Svc::Exception(tokio_modbus::ExceptionCode::new(rng.exc_code())),
+                        1 => Svc::Exception(crate::wire::ex_from_spec(rng.exc_code())),
                         _ => Svc::Decline,
                     };
                     if matches!(&first, Svc::Reply(r) if spec::response_bytes(r).is_none_or(|b| b.len() > 253)) {
@@ -257,7 +257,7 @@ fn expected_log(kind: &str, frames: &[((u16, u8), Vec<u8>)], svc: &[Svc]) -> Opt
                 log.push(format!("write {}", hex(&frame(kind, *tid, *unit, &b))));
             }
             Svc::Exception(e) => {
-                let code: u8 = (*e).into();
+                let code: u8 = crate::wire::ex_num(*e);
                 log.push(format!("write {}", hex(&frame(kind, *tid, *unit, &[pdu[0] | 0x80, code]))));
             }
         }
